@@ -613,8 +613,7 @@ def _deps_reprocessed(ctx: Ctx, cf: FuncInfo, deps_arg) -> bool:
                 if isinstance(a, ast.Name) and (a.id in acc or a.id == deps_arg.id):
                     # the recursive call must not be guarded by anything but non-emptiness of the accumulator
                     c = cond_from_entry(ctx, cf, call)
-                    need = formula_of(ctx, cf, f'len({a.id}) > 0')
-                    return c == TRUE or implies(need, c)
+                    return c == TRUE or any(implies(formula_of(ctx, cf, t.format(a=a.id)), c) for t in ('len({a}) > 0', '{a}', 'len({a}) != 0'))
     for lp in [n for n in walk_local(cf.node) if isinstance(n, (ast.For, ast.While))]:
         if isinstance(lp, ast.For) and isinstance(lp.iter, ast.Name) and lp.iter.id in acc:
             return True
